@@ -258,6 +258,19 @@ impl<'tcx> Cx<'tcx> {
             }
             ConstValue::Indirect { .. } => {
                 o.push(("indirect", J::Bool(true)));
+                // `const X: &[u8] = b"..";` / `&str`: a wide pointer stored in memory
+                if let ty::Ref(_, inner, _) = t.kind() {
+                    let is_bytes = match inner.kind() {
+                        ty::Slice(et) => *et == self.tcx.types.u8,
+                        ty::Str => true,
+                        _ => false,
+                    };
+                    if is_bytes {
+                        if let Some(b) = v.try_get_slice_bytes_for_diagnostics(self.tcx) {
+                            o.push(("bytes", J::Arr(b.iter().map(|x| n(*x)).collect())));
+                        }
+                    }
+                }
             }
         }
         J::Obj(o)
